@@ -713,6 +713,12 @@ func (o *oracleCtx) c03() {
 func (o *oracleCtx) c04() {
 	h, r := o.h, o.r
 	vn := variantName(h.Variant)
+	if len(h.Faults) > 0 {
+		vn += ":storage-faults"
+	}
+	if h.Leg != "" {
+		vn += ":" + h.Leg
+	}
 	type entry struct {
 		uri, dur string
 		gap      bool
@@ -1321,7 +1327,14 @@ func runOracles(h *history, r *runResult) []failure {
 		return nil
 	}
 	if len(h.Faults) > 0 {
+		// the oracles that read nothing but playlists and snapshots: retention (C18) and the playlist
+		// history (C04), which the unchanged muxer keeps satisfying across a failed file creation
 		o.c18Retention()
+		o.c04()
+		return o.fails
+	}
+	if h.Leg == "init-failure" {
+		o.c04()
 		return o.fails
 	}
 	for _, p := range r.panics {
